@@ -423,7 +423,7 @@ func c10Jobs(tier string) []string {
 // sockets are closed, every (network, transport, address, port) must be available again;
 // while a socket is bound and open, a second socket's bind to a conflicting tuple must fail.
 var c10SockKinds = []string{"udp4", "udp6dual", "tcp4", "tcp6dual"}
-var c10SockOpNames = []string{"bind(*:P)", "bind(A:P)", "bind(*:0)", "connect(v4 peer)", "connect(v6 peer)", "listen", "close", "bind(X:P) with X not a local address"}
+var c10SockOpNames = []string{"bind(*:P)", "bind(A:P)", "bind(*:0)", "connect(v4 peer)", "connect(v6 peer)", "listen", "close", "bind(X:P) with X not a local address", "bind([::ffff:A4]:P)", "bind([::ffff:0.0.0.0]:P)"}
 
 func c10Sock(kinds [2]int, seq []int) string {
 	w := NewWorld()
@@ -492,6 +492,17 @@ func c10Sock(kinds [2]int, seq []int) string {
 				x = tcpip.Address("\xfd\x00\x00\x00\x00\x00\x00\x00\x00\x00\x00\x00\x00\x00\x00\x63")
 			}
 			ep.Bind(tcpip.FullAddress{Addr: x, Port: P}, nil) // must fail and leave nothing behind
+		case 8, 9:
+			// a dual-stack socket bound to a v4-mapped address (specific / wildcard): the
+			// reservation lives in the IPv4 space
+			opErr = tcpip.ErrInvalidEndpointState
+			if dual[k] {
+				a4 := string(addrA4)
+				if op == 9 {
+					a4 = "\x00\x00\x00\x00"
+				}
+				opErr = ep.Bind(tcpip.FullAddress{Addr: tcpip.Address("\x00\x00\x00\x00\x00\x00\x00\x00\x00\x00\xff\xff" + a4), Port: P}, nil)
+			}
 		}
 		w.Settle()
 		for _, f := range w.InFlight() {
@@ -505,10 +516,13 @@ func c10Sock(kinds [2]int, seq []int) string {
 		switch {
 		case op == 6:
 			holds[k] = false
-		case op <= 2 && opErr != nil:
+		case (op <= 2 || op >= 8) && opErr != nil:
 			// a failed bind changes nothing
 		case (op == 3 || op == 4) && opErr != nil && opErr != tcpip.ErrConnectStarted:
 			// a failed connect changes nothing either: a socket that was bound stays bound
+		case op >= 8 && la.Port != 0 && !connected[k]:
+			holds[k] = true
+			fam[k] = "4"
 		case op <= 2 && la.Port != 0 && !connected[k]:
 			holds[k] = true
 			fam[k] = "4"
@@ -610,6 +624,15 @@ func c10SockJob(i, n int, tier string, r *engine.Result) {
 				for d := 0; d < depth; d++ {
 					seq[d] = c % nops
 					c /= nops
+				}
+				skip := false
+				for _, cd := range seq {
+					if op := cd % len(c10SockOpNames); op >= 8 && !strings.HasSuffix(c10SockKinds[[2]int{ka, kb}[cd/len(c10SockOpNames)]], "dual") {
+						skip = true // v4-mapped binds exist on dual-stack sockets only
+					}
+				}
+				if skip {
+					continue
 				}
 				engine.Tick()
 				msg := c10Sock([2]int{ka, kb}, seq)
